@@ -46,6 +46,8 @@ RULE = ("resume: generated programs (2-6 minimum steps quick / 2-12 thorough; ev
         "snoozing + mortality, every third one mortality + observers + lookup tables + state machine + births) x ALL step boundaries k = 0..n, each resumed in "
         "its own fresh interpreter; distinct = distinct (program, k); one evaluation = one program with all its boundaries")
 ASSUMPTIONS = [
+    "schedule cases are emitted relative to their first clock value and in units of the gcd of their durations (Sim.v is "
+    "invariant under this affine change of time units: it only adds, subtracts, compares and takes minima of times)",
     "a backup is what SimulationContext.write_backup writes between two whole steps (the only place run() writes one)",
     "the restored context is continued either by run() or by step() calls until the clock reaches the stop time, then "
     "finalize() and report()",
